@@ -101,11 +101,21 @@ def r1_r2_r4(repo, rep):
   itT = norm(rd.expand(hT, hT.ast.iter)[0])
   itC = norm(rd.expand(hC, hC.ast.iter)[0])
   sv, tv, cv = norm(hS.ast.target), norm(hT.ast.target), norm(hC.ast.target)
-  rep.check(itS == 'self.treatment_group_size_range()', 'R1/full-iteration', 'sizes iterate the whole treatment_group_size_range()', f.qualname,
+  # element-preserving wrappers of the size range: enumerate(X, ...) with the size as second target, list/tuple/sorted(X)
+  itS_e = rd.expand(hS, hS.ast.iter)[0]
+  while isinstance(itS_e, ast.Call) and isinstance(itS_e.func, ast.Name) and itS_e.func.id in ('enumerate', 'list', 'tuple', 'sorted', 'iter') and itS_e.args:
+    if itS_e.func.id == 'enumerate':
+      tg_ = hS.ast.target
+      if not (isinstance(tg_, (ast.Tuple, ast.List)) and len(tg_.elts) == 2):
+        break
+      sv = norm(tg_.elts[1])
+    itS_e = itS_e.args[0]
+  itS = norm(itS_e)
+  rep.check_term(itS == 'self.treatment_group_size_range()', itS_e, (), 'R1/full-iteration', 'sizes iterate the whole treatment_group_size_range()', f.qualname,
             'for %s in %s' % (sv, itS), 'the size loop iterates `%s`, not every admissible treatment size: feasible designs of the missing sizes are never evaluated' % itS, f.loc(hS.ast))
-  rep.check(itT == 'self.treatment_group_generator(%s)' % sv and tv == T, 'R1/full-iteration', 'treatment groups iterate treatment_group_generator(size)', f.qualname,
+  rep.check_term(itT == 'self.treatment_group_generator(%s)' % sv and tv == T, rd.expand(hT, hT.ast.iter)[0], (sv,), 'R1/full-iteration', 'treatment groups iterate treatment_group_generator(size)', f.qualname,
             'for %s in %s' % (tv, itT), 'the treatment loop iterates `%s`, not every treatment group of the size (or the pushed treatment group is not the loop variable)' % itT, f.loc(hT.ast))
-  rep.check(itC == 'self.control_group_generator(%s)' % tv and cv == C, 'R1/full-iteration', 'control groups iterate control_group_generator(treatment group)', f.qualname,
+  rep.check_term(itC == 'self.control_group_generator(%s)' % tv and cv == C, rd.expand(hC, hC.ast.iter)[0], (tv, sv), 'R1/full-iteration', 'control groups iterate control_group_generator(treatment group)', f.qualname,
             'for %s in %s' % (cv, itC), 'the control loop iterates `%s`, not every control group for the treatment group (or the pushed control group is not the loop variable)' % itC, f.loc(hC.ast))
   body = [n for n in g.nodes if n.ast is not None and any(x is hS.ast for x in ast.walk(hS.ast) if x is n.ast) or _inside(n, hS.ast)]
   early = [n for n in body if n.kind in ('break', 'return', 'raisestmt')]
@@ -160,6 +170,19 @@ def r1_r2_r4(repo, rep):
           conds.append((e.expr, lab == 'true', e))
     reason = classify_skip(repo, rep, view, e, conds, T, C, tests)
     shown = ' and '.join(('' if t else 'not ') + norm(rd.expand(i, ex)[0])[:80] for ex, t, i in conds)
+    if reason is None:
+      vocab_ = {x.id for y in (P_.T, P_.C) for x in ast.walk(y) if isinstance(x, ast.Name)} | {sv, tv, cv, 'budget_range', 'save_treatment_groups'}
+      # locals naming an object constructed in this function (the result heap, the diagnostics object) are known things
+      for st_ in walk_no_nested(f.node):
+        if isinstance(st_, ast.Assign) and len(st_.targets) == 1 and isinstance(st_.targets[0], ast.Name) and isinstance(st_.value, ast.Call) \
+            and norm(st_.value.func).split('.')[-1][:1].isupper():
+          vocab_.add(st_.targets[0].id)
+      open_ = [a_ for ex, t, i in conds for a_ in au.aliens(rd.expand(i, ex)[0], vocab_)]
+      if not conds or open_:
+        rep.undecided('R2/skip-audit', 'iteration end at line %d' % e.lineno,
+                      'the iteration ends without a push under `%s`%s: whether that is one of the allowed reasons is not decided' % (shown[:120], (' (unresolved: %s)' % ', '.join(sorted(set(open_))[:4])) if open_ else ''),
+                      f.loc(e.ast) if e.ast is not None else f.loc())
+        continue
     rep.check(reason is not None, 'R2/skip-audit', 'iteration end at line %d is for an allowed reason (%s)' % (e.lineno, reason), f.qualname,
               'skip under ' + ' and '.join(('' if t else 'not ') + norm(ex)[:60] for ex, t, _ in conds),
               'a design (or a whole treatment group) is skipped under the condition `%s`, which is none of the reasons the statement allows (share, volume ratio, budget, over-max superset): feasible high-scoring designs can be omitted'
@@ -359,17 +382,25 @@ def r5_ordering(repo, rep):
     gctx = FuncCtx.of(getter)
     cnode = gctx.node_at(c)
     slots = {}
+    opaque_args = any(isinstance(a, ast.Starred) for a in c.args) or any(k.arg is None for k in c.keywords)
     for i, a in enumerate(c.args):
+      if isinstance(a, ast.Starred):
+        break             # positions after a *-argument are not known
       if fields and i < len(fields):
         slots[fields[i]] = a
     for k in c.keywords:
-      slots[k.arg] = k.value
+      if k.arg is not None:
+        slots[k.arg] = k.value
     for name in DOC_SCORE:
       if name not in slots:
-        rep.violation('R5/ordering', getter.qualname, 'slot %s missing' % name, 'score slot %s is not filled' % name, getter.loc(c))
+        if opaque_args:
+          rep.undecided('R5/ordering', 'score slot %s' % name, 'the Scoring tuple is built with */** unpacking: %s' % norm(c)[:80], getter.loc(c))
+        else:
+          rep.violation('R5/ordering', getter.qualname, 'slot %s missing' % name, 'score slot %s is not filled' % name, getter.loc(c))
         continue
       t = norm(gctx.rd.expand(cnode, slots[name])[0])
-      rep.check(re.fullmatch(SLOT_EXPR[name], t) is not None, 'R5/ordering', 'score slot %s = %s' % (name, t), getter.qualname, '%s=%s' % (name, t),
+      t = re.sub(r'round\((.+), ndigits=(\d+)\)', r'round(\1, \2)', t)
+      rep.check_term(re.fullmatch(SLOT_EXPR[name], t) is not None, gctx.rd.expand(cnode, slots[name])[0], (), 'R5/ordering', 'score slot %s = %s' % (name, t), getter.qualname, '%s=%s' % (name, t),
                 'score slot %s is filled with `%s` instead of the documented quantity' % (name, t), getter.loc(slots[name]))
     rep.floor('score slots', len(slots), 6)
   from mmsa.props import c14
